@@ -25,7 +25,8 @@ Stdlib/Collection.lean, Sequence.lean and d12bStrlen.lean — the SAME definitio
 diffs against the real functions on weakened arguments: `sound_length`, `sound_compact`, `sound_distinct`,
 `sound_coalescelist`, `sound_coalesce`, `sound_keys`, `sound_values`, `sound_reverse`, `sound_element`,
 `sound_sort` (length bounds), `sound_strlen` (prefix-derived lower bound), `sound_zipmap`,
-`sound_contains_partial`, `sound_lookup_map_partial`, `sound_concat_partial`, and the full-strength statement
+`sound_hasindex`, `sound_index`, `sound_contains_partial`, `sound_lookup_map_partial`, `sound_lookup_object`,
+`sound_concat_partial`, and the full-strength statement
 that is FALSE of the code as `SoundSetProduct` with `sound_setproduct_counterexample` (the recorded finding).
 Side conditions are explicit and decidable on instances; each theorem has a joint witness at the end of the
 file.  External libraries enter as parameters with named laws (`EnvConvertSound`, the segmentation law of
@@ -38,7 +39,7 @@ the replaced part.
 import CtyModel.Props.C11
 import CtyModel.Lemmas.CoversWeaken
 import CtyModel.Lemmas.C12Funcs
-import CtyModel.Lemmas.d12bIndex
+import CtyModel.Lemmas.d12bLookupObj
 namespace CtyModel
 namespace C12
 open Fn Std
@@ -998,6 +999,53 @@ theorem sound_index (o w ok wk r : Value) (hk : o.whollyKnown = true) (hkk : ok.
     subst this
     exact D12b.index_implSound o w wk h1 hk hkk hkd hfo hfw hfk hmo hmw hmwk hkw hc hckk
 
+/-- **`lookup(object, key, default)`**: the `Type` callback reads the attribute's type off `GetAttr` of the VALUE —
+which depends on the object TYPE only, so a weakening of the object (or of the default) gets the same type; an
+unknown key gets the placeholder.  `Impl` as for maps: an object that is not wholly known gives the unknown of
+that type, a wholly known weakening is the object itself, the default is converted (`EnvConvertSound`) only
+when the attribute is absent. -/
+theorem sound_lookup_object (E : Stdlib.Env) (hE : EnvConvertSound E) (om wm ok wk od wd r : Value)
+    (ns : List String) (ts : List Ty) (os : List Bool) (hobj : om.ty = .object ns ts os)
+    (hkm : om.whollyKnown = true) (hkk : ok.whollyKnown = true) (hkd : od.whollyKnown = true)
+    (hmom : om.containsMarked = false) (hmwm : wm.containsMarked = false)
+    (hmok : ok.containsMarked = false) (hmwk : wk.containsMarked = false)
+    (hmod : od.containsMarked = false) (hmwd : wd.containsMarked = false)
+    (hleaf : ok.v.isLeaf = true) (hs : D12b.noSet wm.v = true)
+    (htm : wm.ty = om.ty ∨ wm.ty.isDyn = true) (htk : wk.ty = ok.ty ∨ wk.ty.isDyn = true)
+    (htd : wd.ty = od.ty ∨ wd.ty.isDyn = true)
+    (hcm : CoversX wm om = true) (hck : CoversX wk ok = true) (hcd : CoversX wd od = true)
+    (hTw : ∀ t, Stdlib.lookupType E [wm, wk, wd] = .ok t → Ty.wf t = true)
+    (hrwf : Ty.wf r.ty = true) (hrefl : Covers r r = true)
+    (hr : (callUnrefined Stdlib.lookupSpec (Stdlib.lookupType E) (Stdlib.lookupImpl E) [om, ok, od]).1 = .ok r) :
+    ∃ r', (callUnrefined Stdlib.lookupSpec (Stdlib.lookupType E) (Stdlib.lookupImpl E) [wm, wk, wd]).1 = .ok r' ∧
+      Covers r' r = true := by
+  have hkept : Passes Stdlib.lookupSpec [wm, wk, wd] → wm.ty = om.ty ∧ wk.ty = ok.ty ∧ wd.ty = od.ty := by
+    intro hp
+    obtain ⟨h1, h2, h3, _⟩ := D12b.firstFail_none_tyKeptS _ [wm, wk, wd] [om, ok, od] hp rfl
+      (by intro p hp; simp [Stdlib.lookupSpec, Spec.expand] at hp; rcases hp with rfl | rfl | rfl <;> rfl)
+      ⟨htm, htk, htd, trivial⟩
+    exact ⟨h1, h2, h3⟩
+  refine impl_soundness_lifts_to_call _ _ _ [om, ok, od] [wm, wk, wd] r ?_ hTw
+    (by intro a ha; simp at ha; rcases ha with rfl | rfl | rfl <;> exact C12L.whollyKnown_isKnown (by assumption))
+    (by intro a ha; simp at ha; rcases ha with rfl | rfl | rfl <;> assumption)
+    (by intro a ha; simp at ha; rcases ha with rfl | rfl | rfl <;> assumption)
+    (by simp [coversAll, hcm, hck, hcd]) ⟨htm, htk, htd, trivial⟩ hrwf hrefl ?_ hr
+  · intro hp
+    obtain ⟨h1, h2, h3⟩ := hkept hp
+    intro t ht
+    by_cases hkw : wk.isKnown = true
+    · have := D12b.leaf_eq hmwk hmok h2 hck hkw hleaf
+      subst this
+      exact ⟨t, D12b.lookupType_obj_eq E hobj h1 h3 hmom hmwm hcm ht, fun _ hc => hc⟩
+    · exact ⟨.dyn, D12b.lookupType_obj_unknown_key E (h1.trans hobj) (by simpa using hkw), D12b.admits_dyn' t⟩
+  · intro hp hri
+    obtain ⟨h1, h2, h3⟩ := hkept hp
+    have hkn := D12b.pass2_all_known _ [wm, wk, wd] hri rfl
+      (by intro p hp; simp [Stdlib.lookupSpec, Spec.expand] at hp; rcases hp with rfl | rfl | rfl <;> rfl)
+    have := D12b.leaf_eq hmwk hmok h2 hck (hkn wk (by simp)) hleaf
+    subst this
+    exact D12b.lookup_obj_implSound E hE om wm wk od wd hobj h1 h3 hmom hmwm hmwk hs hcm hcd
+
 /-! ### the hypotheses are satisfiable -/
 
 example : TypeMonoW (C11.staticType (.list .string)) := static_typeMonoW _
@@ -1292,6 +1340,19 @@ example : ∃ r', (callUnrefined Stdlib.indexSpec Stdlib.indexType Stdlib.indexI
     (by decide) (by decide) (by decide) (by decide) (by decide) (by decide) (by decide) (Or.inl rfl) (Or.inl rfl)
     (by decide) (by decide) (by decide) (by intro h; cases h)
     (by intro t h; have e : Stdlib.indexType [exLw, Value.intVal 0] = .ok .string := rfl; rw [e] at h; cases h; rfl)
+    (by decide) (by decide) (by rfl)
+
+def exObj : Value := ⟨.object ["a", "b"] [.number, .string] [false, false], .smap ["a", "b"] [.n (.fin false 1 0 64), .s "x"]⟩
+def exObjW : Value := ⟨.object ["a", "b"] [.number, .string] [false, false], .smap ["a", "b"] [.unk .unref, .s "x"]⟩
+/-- `lookup({a = 1, b = "x"}, "b", "d")` with the OTHER attribute unknown: the unknown string (the object is not
+wholly known) -/
+example : ∃ r', (callUnrefined Stdlib.lookupSpec (Stdlib.lookupType {}) (Stdlib.lookupImpl {})
+      [exObjW, ⟨.string, .s "b"⟩, ⟨.string, .s "d"⟩]).1 = .ok r' ∧ Covers r' ⟨.string, .s "x"⟩ = true :=
+  sound_lookup_object {} (by intro o w t r _ _ h; cases h) exObj exObjW ⟨.string, .s "b"⟩ ⟨.string, .s "b"⟩ ⟨.string, .s "d"⟩
+    ⟨.string, .s "d"⟩ ⟨.string, .s "x"⟩ _ _ _ rfl (by decide) (by decide) (by decide) (by decide) (by decide) (by decide) (by decide)
+    (by decide) (by decide) (by decide) (by decide) (Or.inl rfl) (Or.inl rfl) (Or.inl rfl) (by decide) (by decide) (by decide)
+    (by intro t h; have e : Stdlib.lookupType {} [exObjW, ⟨.string, .s "b"⟩, ⟨.string, .s "d"⟩] = .ok .string := rfl
+        rw [e] at h; cases h; rfl)
     (by decide) (by decide) (by rfl)
 
 end C12
